@@ -194,11 +194,22 @@ def action_records(run, F, E):
                 c = cfgmod.cfg_of(fn)
                 rn = c.events(('call',), lambda n: n.e.get('m') == 'recordTransition')
                 ok = ok and len(rn) == 1 and not c.in_loop(rn[0])
+                if ok:
+                    # one record per call: nothing but the logger test (and the control lock, which also suppresses the request) gates it
+                    gates = [ir.pp(ir.strip(b.e)) for b in c.control_deps_closure(rn[0]) if b.e is not None]
+                    extra = [g for g in gates if 'logger' not in g and '_locked' not in g]
+                    if extra:
+                        ok = False
+                        det = {'the record is conditional on': extra}
             run.ob('C16.b', '%s::%s logs the origin and destination it requests [%s]' % (tk, m, F.label()), ok, where=fn.pat, detail=None if ok else det,
                    key='%s::%s logs something other than its request' % (tk, m))
     for fn in F.find('GuardControlT', 'cancelPendingTransition'):
         recs = find_record(fn, 'recordCancelledPending')
         ok = len(recs) == 1 and ir.strip(recs[0]['args'][1]).get('f') == '_originId'
+        if ok:
+            c = cfgmod.cfg_of(fn)
+            rn = c.events(('call',), lambda n: n.e.get('m') == 'recordCancelledPending')
+            ok = len(rn) == 1 and all('logger' in ir.pp(ir.strip(b.e)) for b in c.control_deps_closure(rn[0]) if b.e is not None)
         run.ob('C16.b', 'cancelPendingTransition logs one cancellation with the caller as origin [%s]' % F.label(), ok, where=fn.pat,
                key='cancelPendingTransition does not log its cancellation faithfully')
     for tk in ('FullControlBaseT', 'R_'):
@@ -213,6 +224,9 @@ def action_records(run, F, E):
                     ra = recs[0]['args']
                     ok = ir.strip(ra[1]).get('pi') == 0 and ir.const_val(ra[2]) == ev and ir.pp(ir.strip(sets[0]['obj'])).endswith(bits) and \
                         ir.strip(sets[0]['args'][0]).get('pi') == 0
+                    c = cfgmod.cfg_of(fn)
+                    rn = c.events(('call',), lambda n: n.e.get('m') == 'recordTaskStatus')
+                    ok = ok and len(rn) == 1 and all('logger' in ir.pp(ir.strip(b.e)) for b in c.control_deps_closure(rn[0]) if b.e is not None)
                 run.ob('C16.b', '%s::%s(id) sets %s[id] and logs (id, %s) once [%s]' % (tk, m, bits, 'SUCCEEDED' if ev == 0 else 'FAILED', F.label()), ok,
                        where=fn.pat, key='%s::%s does not log its status report faithfully' % (tk, m))
 
